@@ -186,6 +186,9 @@ def transform2call(var):
 
 def check_risk(node):
     description = "Potential XSS on mark_safe function."
+    if not node.args:
+        # mark_safe() / mark_safe(s=x): no positional argument to inspect
+        return None
     xss_var = node.args[0]
 
     secure = False
